@@ -683,6 +683,7 @@ func (c *Ctx) redisCodec(r *redisRoles, r3, r4 string) {
 			c.Decide(r3, r.toProto, "encoder reads Record."+f.Name(), nil, read[f], "the record->proto conversion does not read Record."+f.Name()+": the field is lost in redis")
 			c.Decide(r3, r.fromProto, "decoder writes Record."+f.Name(), nil, written[f], "the proto->record conversion does not set Record."+f.Name()+": Get returns a record without it")
 		}
+		c.redisDecodeFresh(r, r3)
 		// the storing paths use the pair: encode calls toProto, decode calls fromProto
 		c.Decide(r3, r.encode, "encoder uses the record->proto conversion", nil, len(callsTo(r.encode, r.toProto)) == 1, "the record encoder does not go through Record2protoRecord")
 	}
@@ -935,6 +936,24 @@ func (c *Ctx) redisWaitResults(r *redisRoles, rule string) {
 				return isCmp && cm.Op == token.NEQ && (ir.LoadedField(cm.X) == r.recVersion || ir.LoadedField(cm.Y) == r.recVersion)
 			})
 			c.Decide(rule, fn, "nil only when the stored version differs", ret, ok, "the polling waiter returns nil on a path where the version was not seen to differ")
+			// ... and the version compared is the one read by a poll that succeeded: the read's error was seen to be nil
+			okRead := e.HasFact(func(f ir.Fact) bool {
+				cm, isCmp := f.Cmp()
+				if !isCmp || cm.Op != token.EQL {
+					return false
+				}
+				x, y := cm.X, cm.Y
+				if ir.IsNilConst(x) {
+					x, y = y, x
+				}
+				ex, isEx := ir.Resolve(x).(*ssa.Extract)
+				if !isEx || !ir.IsNilConst(y) {
+					return false
+				}
+				call, isCall := ex.Tuple.(*ssa.Call)
+				return isCall && (ir.StaticCallee(call) == r.storage["Get"] || redisCmd(call, "Result") != nil)
+			})
+			c.Decide(rule, fn, "nil decided on a record read without error on this poll", ret, okRead, "the polling waiter compares the version of a record that was not read successfully on this poll (a zero or stale record after a failed read): it reports a change that did not happen")
 		default:
 			if call, ok := ev.(*ssa.Call); ok && call.Call.IsInvoke() && call.Call.Method.Name() == "Err" {
 				n++
@@ -1132,4 +1151,138 @@ func (r *redisRoles) batchWithoutExpiry(at ssa.Instruction, cell ssa.Value) bool
 		}
 	}
 	return false
+}
+
+// redisNoSeparateTTL: a record's value and its time-to-live are written by ONE command (SET/SETNX with the TTL). A TTL
+// set, changed or removed by a command of its own (EXPIRE, PEXPIRE, EXPIREAT, PEXPIREAT, PERSIST, also inside a
+// pipeline - a pipeline is not a transaction) can be applied to a value another writer has put there in between:
+// that record then vanishes (or stays for ever) without any operation of the contract explaining it. SetArgs is refused
+// as well: its ExpireAt is sent as EXAT in whole seconds, and KeepTTL inherits the TTL of whatever was stored before.
+func (c *Ctx) redisNoSeparateTTL(r *redisRoles, rule string) {
+	n := 0
+	for _, fn := range r.all {
+		ir.Instrs(fn, func(in ssa.Instruction) {
+			for _, cmd := range []string{"Expire", "PExpire", "ExpireAt", "PExpireAt", "Persist", "ExpireNX", "ExpireXX", "ExpireGT", "ExpireLT", "SetArgs", "GetEx"} {
+				if call := redisCmd(in, cmd); call != nil {
+					n++
+					c.Decide(rule, fn, "value and TTL written by one command", in, false,
+						"the storage issues "+cmd+": the time-to-live of a key is written separately from (or with another resolution than) its value - between the two commands another writer's value can land and inherit the TTL, or the record disappears up to a second early")
+				}
+			}
+		})
+	}
+	if n == 0 {
+		c.Decide(rule, r.storage["Put"], "value and TTL written by one command", nil, true, "")
+	}
+}
+
+// redisDecodeFresh: every decode of a stored record starts from an empty message. proto3 leaves default-valued fields
+// (empty value, no expiry) off the wire, so decoding into a message that still holds the previous record and is not
+// reset (UnmarshalOptions.Merge) makes the record inherit the other record's value or expiry. proto.Unmarshal resets the
+// message itself; a merging decode is accepted only into a message that is local to the decoding call and used once.
+func (c *Ctx) redisDecodeFresh(r *redisRoles, rule string) {
+	n := 0
+	for _, fn := range r.all {
+		ir.Instrs(fn, func(in ssa.Instruction) {
+			call, ok := in.(*ssa.Call)
+			if !ok {
+				return
+			}
+			name := ir.CalleeFullName(call)
+			plain := name == "google.golang.org/protobuf/proto.Unmarshal"
+			method := strings.HasPrefix(name, "(google.golang.org/protobuf/proto.UnmarshalOptions).Unmarshal")
+			if !plain && !method {
+				return
+			}
+			n++
+			if plain {
+				c.Decide(rule, fn, "decode starts from an empty message", in, true, "")
+				return
+			}
+			args := call.Call.Args // options, buf, message
+			// may the options merge?
+			merges := true
+			if ld, isLd := args[0].(*ssa.UnOp); isLd && ld.Op == token.MUL {
+				if al, isAl := ld.X.(*ssa.Alloc); isAl {
+					merges = false
+					if al.Referrers() != nil {
+						for _, ref := range *al.Referrers() {
+							if fa, isFA := ref.(*ssa.FieldAddr); isFA && ir.FieldOf(fa) != nil && ir.FieldOf(fa).Name() == "Merge" && fa.Referrers() != nil {
+								for _, r2 := range *fa.Referrers() {
+									if st, isSt := r2.(*ssa.Store); isSt {
+										if cv := ir.ConstVal(st.Val); cv == nil || cv.String() != "false" {
+											merges = true
+										}
+									}
+								}
+							}
+						}
+					}
+				}
+			}
+			// is the message a local of this call that no loop re-uses?
+			freshMsg := false
+			msg := args[len(args)-1]
+			if mi, isMI := msg.(*ssa.MakeInterface); isMI {
+				msg = mi.X
+			}
+			if al, isAl := msg.(*ssa.Alloc); isAl {
+				freshMsg = true
+				cb, ab := call.Block(), al.Block()
+				if cb != ab {
+					inCycle := false
+					for _, s := range cb.Succs {
+						if reachesAvoiding(s, cb, ab) {
+							inCycle = true
+						}
+					}
+					if inCycle {
+						freshMsg = false // declared outside the loop the decode runs in
+					}
+				}
+				uses := 0
+				ir.Instrs(fn, func(x ssa.Instruction) {
+					if c2, isC := x.(*ssa.Call); isC {
+						for _, a := range c2.Call.Args {
+							if mi, isMI := a.(*ssa.MakeInterface); isMI && mi.X == ssa.Value(al) {
+								if strings.Contains(ir.CalleeFullName(c2), "Unmarshal") {
+									uses++
+								}
+							}
+						}
+					}
+				})
+				if uses > 1 {
+					freshMsg = false
+				}
+			}
+			c.Decide(rule, fn, "decode starts from an empty message", in, !merges || freshMsg,
+				"a stored record is decoded with merge semantics into a message that may still hold another record: fields proto3 leaves off the wire (an empty value, no expiry) keep the other record's content - GetMany then reports a value/expiry for one key that belongs to another")
+		})
+	}
+	if n == 0 {
+		c.Decide(rule, r.fromProto, "decode starts from an empty message", nil, false, "no protobuf decode found in the redis backend")
+	}
+}
+
+// reachesAvoiding: to is reachable from from without passing through avoid.
+func reachesAvoiding(from, to, avoid *ssa.BasicBlock) bool {
+	seen := map[*ssa.BasicBlock]bool{}
+	var rec func(b *ssa.BasicBlock) bool
+	rec = func(b *ssa.BasicBlock) bool {
+		if b == avoid || seen[b] {
+			return false
+		}
+		if b == to {
+			return true
+		}
+		seen[b] = true
+		for _, s := range b.Succs {
+			if rec(s) {
+				return true
+			}
+		}
+		return false
+	}
+	return rec(from)
 }
